@@ -608,3 +608,80 @@ _run_before_r8 = run
 def run(ctx):
     _run_before_r8(ctx)
     r8_time_is_the_whole_duration(ctx)
+
+
+def r9_pv_comes_from_this_iteration(ctx):
+    """the line that is reported (and stored) is computed from this iteration's result, not from the stored line"""
+    rid = "C16.R9"
+    ctx.rule(rid, "in Search::best_move the principal variation that is put into the info message and stored in the state is computed from the iteration's own search result: the previously stored line (state.principal_variation - it survives `position` and `ucinewgame`) does not flow into it, otherwise a line of an earlier position is reported as the line of this one", floor=1)
+    from ..slice import Slicer
+    f = ctx.fn(rid, SEARCH + "best_move", positional=False)
+    seeds, sink_line = set(), None
+    for b in f["blocks"]:
+        if b["cleanup"]:
+            continue
+        for s in b["stmts"]:
+            d = s["dst"]
+            if d is not None and d["p"] and isinstance(d["p"][-1], dict) and d["p"][-1].get("name") == "principal_variation":
+                for a in s["rv"].get("a", []):
+                    if a.get("k") in ("copy", "move"):
+                        seeds.add(a["pl"]["l"]); sink_line = sink_line or s["line"]
+            if s["rv"].get("op") == "agg" and str(s["rv"].get("adt", "")).endswith("uci::Info") and "principal_variation" in (s["rv"].get("fields") or []):
+                a = s["rv"]["a"][s["rv"]["fields"].index("principal_variation")]
+                if a.get("k") in ("copy", "move"):
+                    seeds.add(a["pl"]["l"]); sink_line = sink_line or s["line"]
+    if not seeds:
+        ctx.lost(rid, "where Search::best_move reports / stores the principal variation")
+        return
+    sl = Slicer(f)
+    # the iteration's own result is a source: what went into the search (is_pv = "a stored line exists" steers the move
+    # ordering) is not part of the question
+    stop = {b["term"]["dest"]["l"] for b in f["blocks"] if b["term"]["k"] == "call" and b["term"].get("dest") and not b["term"]["dest"]["p"]
+            and (b["term"]["callee"].get("key") == SEARCH + "search_negamax" or ((b["term"]["callee"].get("key") or "").startswith(SEARCH) and "ValuedMove" in f["locals"][b["term"]["dest"]["l"]]["ty"]))}
+    locs, work = set(), list(seeds)
+    while work:
+        l = work.pop()
+        if l in locs:
+            continue
+        locs.add(l)
+        if l in stop or l <= f["args"]:
+            continue        # (parameters - `self` above all - are "redefined" by every call that borrows them mutably)
+        for (b_, used, term) in sl.defs.get(l, []):
+            work.extend(used)
+
+    def reads_stored(pl):
+        return any(isinstance(e, dict) and e.get("name") == "principal_variation" and "Info" not in str(e.get("of")) for e in pl.get("p", [])) and pl["l"] not in seeds
+
+    from ..cfg import Cfg
+    cfg = Cfg(f)
+    # reading the line back after this iteration has stored it is reading this iteration's line
+    writes = []
+    for bi, b in enumerate(f["blocks"]):
+        for si, s in enumerate(b["stmts"]):
+            d = s["dst"]
+            if d is not None and d["p"] and isinstance(d["p"][-1], dict) and d["p"][-1].get("name") == "principal_variation":
+                writes.append((bi, si))
+    bad = None
+    for bi, b in enumerate(f["blocks"]):
+        if b["cleanup"] or bi not in cfg.reach:
+            continue
+        for si, s in enumerate(b["stmts"]):
+            d = s["dst"]
+            if d is None or d["l"] not in locs:
+                continue
+            places = ([s["rv"]["place"]] if "place" in s["rv"] else []) + [a["pl"] for a in s["rv"].get("a", []) if a.get("k") in ("copy", "move")]
+            if any(reads_stored(pl) for pl in places):
+                fresh = any((wb == bi and wi < si) or (wb != bi and cfg.dominates(wb, bi)) for wb, wi in writes)
+                if not fresh:
+                    bad = bad or s["line"]
+    ctx.ob(rid, "best_move|pv-from-this-iteration", bad is None,
+           "" if bad is None else "the principal variation Search::best_move reports and stores depends on the line stored before (state.principal_variation is read into it): after `position` / `ucinewgame` that is the line of another position, and it is printed - and its second move announced as ponder move - although it is not playable here",
+           ctx.where(f, bad or sink_line), sample={"sinks": len(seeds), "locals_in_slice": len(locs)})
+
+
+_run_before_r9 = run
+
+
+def run(ctx):
+    _run_before_r9(ctx)
+    r9_pv_comes_from_this_iteration(ctx)
